@@ -28,6 +28,18 @@ PROPS = {
         "technique": "Lean 4 proof (invariant by induction over operation lists) + source translation + correspondence",
         "assumptions": ["fewer than 2^32 messages per direction (as in the property statement)", "AEAD integrity for identifying IVs by trial decryption"],
     },
+    "C09": {
+        "rule": "(a) DigestId::new on the boundary set of its 2^32 inputs + random draws, against the regenerated Lean definition and the range predicate; (b) issuances over generated namespace maps "
+                "(1-4 namespaces, 1-40 elements, arbitrary nested CBOR values), three digest algorithms, decoys on/off, direct and prepare/complete signing, non-UTC sub-second validity; every element digest is recomputed "
+                "by the Lean model (own SHA-2) and the namespace / issuerAuth / MSO predicates of Spec/Issuance.lean are evaluated on the real output; signatures verified with p256 directly; (c) refusal cases. Distinct by operation line",
+        "xlate_items": ["DigestId::new"],
+        "trusted_base": ["Generated.digestIdNew translated from src/definitions/mso.rs on every run", "hand model of item/id/decoy generation over an explicit randomness tape (Model/Issuance.lean)",
+                         "Lean SHA-256/384/512 (executable instance, validated against the sha2 crate on every item of every run and on FIPS vectors)", "p256 ECDSA verification used directly by the harness"],
+        "level_text": "Lean theorems: digest-id range for every non-overflowing input (regenerated definition); for every element list and randomness tape the generated ids are fresh and pairwise distinct, each supplied element appears exactly once in order with its own salt, decoy ids are fresh; digest preimage is #6.24(bstr item) and is injective; refusals. Real issuances are tied by recomputing every digest in Lean and evaluating the full C09 predicate (namespace, MSO, issuerAuth, Sig_structure) on the real output.",
+        "level_note": "Trusted: Lean kernel; xlate; hand model vs real code by correspondence; entropy of salts and termination of id generation are not modelled (tape); signature validity is observed through p256.",
+        "technique": "Lean 4 proof (induction over element lists and tapes) + source translation + correspondence with independent digest recomputation",
+        "assumptions": ["the randomness tape eventually yields a fresh id (loop termination is probabilistic in the code)"],
+    },
     "C13": {
         "rule": "every call sequence up to length 3 (quick) / 4 (thorough) over {handle_request(valid | not-CBOR plaintext | non-request plaintext | undecryptable | garbage), "
                 "prepare_response(0,1,2 documents), get_next_signature_payload, submit_next_signature(real | invented bytes), response_ready, retrieve_response} from a fresh established session, "
